@@ -46,7 +46,7 @@ def main():
     if argv[:1] == ['-j']:
         jobs = int(argv[1]); argv = argv[2:]
     props = [c['property_id'] for c in json.load(open(os.path.join(VERIF, 'MANIFEST.json')))['checks']]
-    seeds = sorted(d for d in os.listdir(os.path.join(VERIF, 'seeded')) if os.path.isdir(os.path.join(VERIF, 'seeded', d)))
+    seeds = sorted(d for d in os.listdir(os.path.join(VERIF, 'seeded')) if os.path.isfile(os.path.join(VERIF, 'seeded', d, 'meta.json')))
     if argv:
         seeds = [s for s in seeds if s in argv]
     base = tempfile.mkdtemp(prefix='jlsseeded-')
